@@ -23,6 +23,13 @@ Tagged(i) == LET ps == Pieces(SegOf(i)) IN
                          acell |-> CellOf(I(pts[i].a)), tcell |-> CellOf(I(pts[i].t))]]
 RECURSIVE Gridded(_)
 Gridded(i) == IF i = 0 THEN <<>> ELSE Gridded(i - 1) \o Tagged(i)
+\* Staircases: trajectories with TWO legs along latitude lines that run the same way and cross the same meridians (joined by
+\* an oblique leg back): every leg is split on its own, whatever the other legs of the trajectory look like
+Pt(x, y) == [x |-> x, y |-> y, a |-> 1, t |-> 2]
+Staircases == {<<Pt(xa, y0), Pt(xb, y0), Pt(xa, y1), Pt(xb, y1)>> : xa \in {1, 2, 6}, xb \in {2, 5, 7}, y0 \in {1, 2, 3}, y1 \in {5, 6, 7}}
+              \cup {<<Pt(xb, y0), Pt(xa, y0), Pt(xb, y1), Pt(xa, y1)>> : xa \in {1, 2}, xb \in {5, 7}, y0 \in {1, 3}, y1 \in {5, 7}}
+StairInit == pts \in {q \in Staircases : q[1].x # q[2].x} /\ seg = <<0, 0, 0, 0>>
+StairSpec == StairInit /\ [][FALSE /\ UNCHANGED <<pts, seg>>]_<<pts, seg>>
 EmitChain == IF Len(pts) <= K THEN TRUE
              ELSE PrintT("@@" \o ToJson([pts |-> pts, g |-> Gridded(Len(pts) - 1)])) /\ FALSE
 =============================================================================
